@@ -2,6 +2,7 @@
     Property theorems only. *)
 From Coq Require Import ZArith List Bool.
 From CV Require Import Geom.Winding Bool.Region Bool.Sweep Bool.SweepProofs Bool.Check Bool.MergeOrder Bool.MergeOrderProofs.
+From CV Require Import Stroke.Dist.
 Import ListNotations.
 Open Scope Z_scope.
 
@@ -90,3 +91,10 @@ Theorem C01_merge_any_order : forall segs ks op rule,
   lchain op rule None (rev (mscan_seq (propagate segs op rule) ks op rule)).
 Proof. exact merge_any_order. Qed.
 Print Assumptions C01_merge_any_order.
+
+(** the guard of the sample oracle means what it says: a guarded sample is at squared distance at least g2 from EVERY point
+    a + (sn/sd)(b-a), 0 <= sn <= sd, of the edge (scaled by sd^2 to stay in Z) *)
+Theorem C01_guard_is_distance : forall p a b g2 sn sd, (0 < sd)%Z -> (0 <= sn <= sd)%Z ->
+  far_seg p a b g2 = true -> (g2 * (sd * sd) <= sdist2 p a b sn sd)%Z.
+Proof. exact far_seg_sound. Qed.
+Print Assumptions C01_guard_is_distance.
